@@ -261,3 +261,14 @@ PROPS["C10"] = dict(
                  "tolerances: 1 ulp for kernels evaluating in float64, 4 ulp for float32 Tanh, 4 + 2*ceil|x| ulp for float32 Sigmoid"],
     stages=lambda tier: [mc("unary-ops", "MC_C10.tla", "MC_C10_%s.cfg" % tier, min_cases=3000)],
 )
+
+PROPS["C11"] = dict(
+    rule="BFS: Constant every attribute form (value with each of the 11 tensor types x raw/typed encoding x 5 shapes incl. rank 0, "
+         "value_float(s), value_int(s) with extremes, refused forms, zero/two attributes); ConstantOfShape every shape of rank 1..3 "
+         "extents 1..3 (rank 1..4 thorough) x 11 value types x both encodings, default value, invalid values/dims, empty shape tensor; "
+         "Cast all 10x10 numeric source/target pairs x the in-range value catalogue (fractions truncate toward zero, width boundaries "
+         "127/128/255/256/32767/65535, NaN/Inf/-0 between float types) on vectors, scalars and rank-3 tensors, unsupported targets; "
+         "non-trivial = expected tensor with more than one element or expected error",
+    assumptions=["Cast values outside the target range are not generated (C conversion is undefined there)"],
+    stages=lambda tier: [mc("const-ops", "MC_C11.tla", "MC_C11_%s.cfg" % tier, min_cases=2000)],
+)
